@@ -953,6 +953,7 @@ func (e *Engine) addPEGObligations() {
 	e.addPEGFlagObligations(pa)
 	e.addPEGTyping(pa)
 	e.languageObligations()
+	e.stickyFlagObligations()
 }
 
 // languageObligations (C19): error text is rendered only in the configured language.
@@ -1077,4 +1078,58 @@ func (e *Engine) languageObligations() {
 	}
 	e.frameObl("frame:actions/addErr-language", []string{"C19"}, len(mono) == 0, "",
 		"parse errors raised by grammar actions are available in the configured language", strings.Join(mono, "; "))
+}
+
+// stickyFlagObligations (C07): ParserData.codeOverflow records that instructions were dropped; Parse turns it into an
+// error.  The flag must be sticky: every assignment to it anywhere in the package stores the constant true.
+func (e *Engine) stickyFlagObligations() {
+	var bad []string
+	sites := 0
+	for _, key := range sortedKeys(e.P.Funcs) {
+		fi := e.P.Funcs[key]
+		if fi.Decl == nil || fi.Decl.Body == nil || fi.File == ContractsFileName || fi.File == GenFileName {
+			continue
+		}
+		ast.Inspect(fi.Decl.Body, func(n ast.Node) bool {
+			check := func(lhs, rhs ast.Expr) {
+				se, ok := lhs.(*ast.SelectorExpr)
+				if !ok || se.Sel.Name != "codeOverflow" {
+					return
+				}
+				sites++
+				if id, ok := rhs.(*ast.Ident); !ok || id.Name != "true" {
+					r := "<none>"
+					if rhs != nil {
+						r = e.exprStr(rhs)
+					}
+					bad = append(bad, key+" assigns "+r+" at "+e.posStr(lhs.Pos()))
+				}
+			}
+			switch u := n.(type) {
+			case *ast.AssignStmt:
+				for i, l := range u.Lhs {
+					var r ast.Expr
+					if len(u.Rhs) == len(u.Lhs) {
+						r = u.Rhs[i]
+					}
+					check(l, r)
+				}
+			case *ast.CompositeLit:
+				// a struct literal of ParserData would reset the flag
+				if t := e.P.Info.TypeOf(u); t != nil && e.typeStr(t) == "ParserData" {
+					for _, el := range u.Elts {
+						if kv, ok := el.(*ast.KeyValueExpr); ok {
+							if id, ok := kv.Key.(*ast.Ident); ok && id.Name == "codeOverflow" {
+								sites++
+								bad = append(bad, key+" initialises the flag in a literal at "+e.posStr(kv.Pos()))
+							}
+						}
+					}
+				}
+			}
+			return true
+		})
+	}
+	e.frameObl("frame:ParserData.codeOverflow/sticky", []string{"C07"}, len(bad) == 0 && sites > 0, "",
+		"the instruction-overflow flag is only ever set (every assignment stores the constant true), so an overflow in any code buffer reaches Parse", strings.Join(bad, "; "))
 }
